@@ -93,12 +93,13 @@ class AsyncChannel(AsyncIterable[T]):
         self._waiting_receivers += 1
         try:
             result = await self._queue.get()
-            if result is self.__flush:
-                raise StopAsyncIteration
-            return result
         finally:
             self._waiting_receivers -= 1
-            self._queue.task_done()
+        # Only a get() that actually returned an item has a task to mark as done
+        self._queue.task_done()
+        if result is self.__flush:
+            raise StopAsyncIteration
+        return result
 
     def closed(self) -> bool:
         """
@@ -164,12 +165,13 @@ class AsyncChannel(AsyncIterable[T]):
         self._waiting_receivers += 1
         try:
             result = await self._queue.get()
-            if result is self.__flush:
-                return None
-            return result
         finally:
             self._waiting_receivers -= 1
-            self._queue.task_done()
+        # Only a get() that actually returned an item has a task to mark as done
+        self._queue.task_done()
+        if result is self.__flush:
+            return None
+        return result
 
     def close(self):
         """
